@@ -302,6 +302,43 @@ class Gen:
             self.simple.append((c, upfirst(c)))
         else:
             self.combs.append(Comb(self.fresh("fnc"), "", [], fs, isfun=True, res=self.result_type()))
+        if rng.random() < 0.5:   # declaration order matters to the linter's depth-first walk: also outermost first
+            k = depth + 1
+            self.combs[-k:] = self.combs[-k:][::-1]
+
+    def add_shared(self):
+        """one nat-templated inner type (optionally over a second level) that 2..4 combinators feed, each with ITS OWN
+        field mask and its own directly used bits: the per-combinator used-bit sets must stay independent"""
+        rng = self.rng
+        inner = self.fresh("sh")
+        it = upfirst(inner)
+        block = []
+        ifs = [Field("x", self.scalar(), ("m", rng.randrange(32)))]
+        if rng.random() < 0.4:
+            low = self.fresh("shl")
+            block.append(Comb(low, upfirst(low), [("m", "#")], [Field("q", self.scalar(), ("m", rng.randrange(32)))]))
+            ifs.append(Field("l", T(upfirst(low), [T("m")])))
+            self.nattmpl.append((low, upfirst(low), 1))
+        block.append(Comb(inner, it, [("m", "#")], ifs))
+        self.nattmpl.append((inner, it, 1))
+        users = []
+        for u in range(rng.randrange(2, 5)):
+            mn = rng.choice(["f", "g", "h", "fm", "mask"]) + str(u)
+            fs = [Field(mn, T("#"))]
+            for j in range(rng.randrange(1, 4)):
+                fs.append(Field(f"d{j}", T("true") if rng.random() < 0.3 else self.scalar(), (mn, rng.randrange(32))))
+            fs.insert(rng.randrange(1, len(fs) + 1), Field("in", T(rng.choice([inner, it]), [T(mn)], bare=rng.random() < 0.2)))
+            if rng.random() < 0.7:
+                c = self.fresh("us")
+                users.append(Comb(c, upfirst(c), [], fs))
+                self.simple.append((c, upfirst(c)))
+            else:
+                users.append(Comb(self.fresh("fnu"), "", [], fs, isfun=True, res=self.result_type()))
+        if rng.random() < 0.5:
+            block = users + block
+        else:
+            block = block + users
+        self.combs += block
 
     def add_function(self):
         rng = self.rng
@@ -321,16 +358,18 @@ class Gen:
         res = self.result_type(natvars if rng.random() < 0.3 else [])
         self.combs.append(Comb(name, "", [], fs, isfun=True, res=res))
 
-    def schema(self, ntypes=None, nfuns=None, chain=False):
+    def schema(self, ntypes=None, nfuns=None, chain=False, shared=False):
         rng = self.rng
         if chain:
             self.add_chain()
+        if shared:
+            self.add_shared()
         for _ in range(ntypes if ntypes is not None else rng.randrange(3, 9)):
             self.add_type()
         for _ in range(nfuns if nfuns is not None else rng.randrange(1, 5)):
             self.add_function()
         combs = self.combs
-        if rng.random() < 0.4:   # declaration order is free in TL: uses may precede declarations
+        if rng.random() < 0.4 and not (chain or shared):   # declaration order is free in TL: uses may precede declarations
             ts = [c for c in combs if not c.isfun]
             rng.shuffle(ts)
             combs = ts + [c for c in combs if c.isfun]
@@ -385,6 +424,31 @@ def sem_local_bits(s, c, fname, skip_rep=False):
     return bits
 
 
+def size_use(c, fname):
+    """is the name used as a repeat count or tuple size in c"""
+    for f in c.fields:
+        if f.rep and f.rep[0] == fname:
+            return True
+    for t in c.all_types():
+        for node in t.walk():
+            if node.name in ("tuple", "Tuple") and any(a.nat is None and a.name == fname for a in node.args):
+                return True
+    return False
+
+
+def fed_types(s, c, fname):
+    """the (type, argument index) positions the name is passed to in c"""
+    ctor2type = {x.name: x.tname for x in s.combs if not x.isfun}
+    res = set()
+    for t in c.all_types():
+        for node in t.walk():
+            tn = ctor2type.get(node.name, node.name if node.name in s.types() else None)
+            for k, a in enumerate(node.args):
+                if a.nat is None and a.name == fname and not a.args and tn:
+                    res.add((tn, k))
+    return res
+
+
 def passes_nat(c, fname):
     """is the name passed as a type argument (or a repeat count) anywhere in c"""
     for f in c.fields:
@@ -424,8 +488,8 @@ def safe_edits(rng, s, nmax, strict_masks=False):
         if not c.isfun and not c.targs and len(s.types()[c.tname]) == 1:
             g.simple.append((c.name, c.tname))
     for _ in range(nmax):
-        k = rng.choice(["field-local", "field-local", "field-local", "field-targ", "ctor-union", "ctor-boxed",
-                        "new-type", "new-fn", "fn-mask"])
+        k = rng.choice(["field-local", "field-local", "field-local", "field-passed", "field-passed", "field-targ", "ctor-union",
+                        "ctor-boxed", "new-type", "new-fn", "fn-mask"])
         if k == "field-local":
             cands = []
             for c in s.combs:
@@ -443,6 +507,32 @@ def safe_edits(rng, s, nmax, strict_masks=False):
             if not free or (strict_masks and not any(g.mask and g.mask[0] == f.name for g in c.fields)):
                 continue
             c.fields.append(Field(f"nf{len(c.fields)}", g.scalar(), (f.name, rng.choice(free))))
+        elif k == "field-passed":
+            # the mask is also handed to nat-templated types: free = not used here, nor anywhere below; preferably a
+            # bit that a SIBLING (another combinator feeding the same type from its own mask) uses in its own mask
+            cands = []
+            for c in s.combs:
+                for i, f in nat_fields(c):
+                    if f.name and passes_nat(c, f.name) and not size_use(c, f.name) and not any(a[0] == f.name for a in c.targs) \
+                            and [g2.name for g2 in c.fields].index(f.name) == i and any(g2.mask and g2.mask[0] == f.name for g2 in c.fields):
+                        cands.append((c, f))
+            if not cands:
+                continue
+            c, f = rng.choice(cands)
+            used = sem_local_bits(s, c, f.name)
+            free = [b for b in range(32) if b not in used]
+            if not free:
+                continue
+            sib = set()
+            fed = fed_types(s, c, f.name)
+            for o in s.combs:
+                if o is c:
+                    continue
+                for _, g2 in nat_fields(o):
+                    if g2.name and fed_types(s, o, g2.name) & fed:
+                        sib |= {x.mask[1] for x in o.fields if x.mask and x.mask[0] == g2.name}
+            pref = [b for b in free if b in sib]
+            c.fields.append(Field(f"nf{len(c.fields)}", g.scalar(), (f.name, rng.choice(pref if pref and rng.random() < 0.85 else free))))
         elif k == "field-targ":
             cands = [c for c in s.combs if not c.isfun and any(a[1] == "#" for a in c.targs)
                      and len(s.types()[c.tname]) == 1]
@@ -527,7 +617,7 @@ def sem_targ_bits(s, tname, idx, seen=None):
     return bits
 
 
-UNSAFE_KINDS = ["rm-ctor", "rm-fn", "rm-field", "rm-targ", "ty-scalar", "ty-ref", "ty-bare", "ty-const", "ty-nested",
+UNSAFE_KINDS = ["bit-reuse-targ", "rm-ctor", "rm-fn", "rm-field", "rm-targ", "ty-scalar", "ty-ref", "ty-bare", "ty-const", "ty-nested",
                 "ty-rep", "mask-ref", "mask-bit", "mask-add", "mask-rm", "append-nomask", "bit-reuse", "bit-reuse-deep",
                 "bare-to-union"]
 
@@ -667,6 +757,26 @@ def unsafe_edit(rng, s, kind):
         # is the bit visible without looking inside repetitions (the linter does not look there)
         s.detail = [] if bit in sem_local_bits(s, c, f.name, skip_rep=True) else ["rep"]
         c.fields.append(Field(f"nf{len(c.fields)}", T(rng.choice(SCALARS)), (f.name, bit)))
+    elif kind == "bit-reuse-targ":
+        # template-argument mask: a bit that means something one or more type levels below
+        cands = []
+        for c in combs:
+            if c.isfun or len(types[c.tname]) != 1:
+                continue
+            for idx, a in enumerate(c.targs):
+                if a[1] != "#":
+                    continue
+                direct = {g.mask[1] for g in c.fields if g.mask and g.mask[0] == a[0]}
+                deep = sem_layout_bits(s, c.tname, idx) - direct
+                if deep:
+                    cands.append((c, idx, sorted(deep)))
+        x = pick(cands)
+        if not x:
+            return None
+        c, idx, deep = x
+        bit = rng.choice(deep)
+        s.detail = [] if bit in sem_layout_bits(s, c.tname, idx, None, True) else ["rep"]
+        c.fields.append(Field(f"nf{len(c.fields)}", T(rng.choice(SCALARS)), (c.targs[idx][0], bit)))
     elif kind == "bare-to-union":
         cands = [c for c in combs if not c.isfun and len(types[c.tname]) == 1 and not c.targs and bare_used(s, c)]
         c = pick(cands)
